@@ -97,7 +97,9 @@ CHECKS = {
          "rest; C13_short_help_text / C13_short_help_text_closes -- a help text embedded as an inline block of text tokens "
          "shows the texts before the first break and the first paragraph of the text holding it, and the end of the block "
          "switches skipping off again; C13_short_nested_refuted -- NOT so when the help text embeds a further document that "
-         "holds the break (witness replayed on the library: known finding C13-para-break-inside-embedded-doc). The width clause, for every width and every document with texts shorter than 10^6 characters: "
+         "holds the break (witness replayed on the library: known finding C13-para-break-inside-embedded-doc); C13_render_returns "
+         "-- the renderer returns for every document, form and width (after fix: commit efdd257). Explicit token lists (blocks "
+         "nested up to 45 deep, random balanced/unbalanced lists) go through the console renderer of model and library too. The width clause, for every width and every document with texts shorter than 10^6 characters: "
          "C13_column_dominates_line -- at every prefix of the rendering the column counter the wrapping decision uses is at "
          "least the length of the line being written; C13_width_word_partial -- from every state the renderer can reach "
          "(C13_render_states_reachable, C13_splitter_chunks), placing a word or a separating space leaves a line of at most "
@@ -188,7 +190,8 @@ CHECKS = {
          "consumed-something rule makes `len` strictly decrease -- for every inner parser. C04_documentation_returns: for EVERY "
          "definition (adjacent groups included) whose own documents are what the Doc API can build, render_html and "
          "render_manpage return in the model (section extraction has enough fuel, the item writer's group loop terminates, no "
-         "todo!() block is met). C04_total_without_adjacent: for "
+         "todo!() block is met). C04_console_rendering_returns: the console renderer returns for every document, form and width "
+         "(true after fix: commit efdd257 -- margins above the 50-column padding constant panicked). C04_total_without_adjacent: for "
          "EVERY definition built without `adjacent` (every combinator of the model, arbitrarily nested: flags, arguments, "
          "positionals, any, subcommands, construct!, alternatives, optional/many/some/collect/count/last, fallback, guard, parse, "
          "map, hide, usage, group_help, pure, fail, boxed) whose named items have a name or variable and whose levels pass "
